@@ -66,6 +66,11 @@ CHECKS = {
         technique="TLA+ definitions of the filter predicates and per-path reachability (Filter.tla); cross-path consistency theorems model-checked by TLC over all configurations of a pool (FilterMC); the configuration x key x db matrix replayed through the real full-sync, restore and incremental paths with every target command and the final keyspace validated by TLC against Filter.tla (FsTrace.tla)",
         text="TLC checks the consistency theorems on 24 300 (configuration, key, db) cases; the binding replays the matrix {sync, restore, incremental} x {no / white / black key list over subsets of {a,ab,b}} x 5 db lists x slot list x filter.lua with 9 keys (empty, prefix-related, checkpoint, hash-tagged) in 3 dbs plus a Lua script against the model Redis and lets TLC decide for every observed command and final key whether Filter.tla allows it.",
         note="Rump path: same operators, exercised by C16. Incremental path uses SET / SCRIPT LOAD / opinfo; target.db combined with db filters is covered by C03's targetdb-dbfilter family."),
+    "C02": dict(
+        level="model_checking", design="DESIGN.md 4/C02",
+        technique="TLA+ case space and outcome contract (Restore.tla, 118 584 cases enumerated by TLC); seeded samples of the cases concretised by an independent RDB writer, parsed by the real Loader and restored by the real RestoreRdbEntry into a model Redis with per-case personality; every command and the final key judged by TLC (FsTrace.tla)",
+        text="The property is a decision table over entry x configuration x target state; TLC enumerates the full case space with the contract's outcome per case and a seeded sample (quick ~1 800, thorough ~12 000 distinct cases, plus chunked hashes) is executed on the real code: value equality by the harness's own decoder, TTL window, untouched-ness of existing keys under none/ignore, error reporting, no abort for any version string, no DEL outside rewrite.",
+        note="mredis stands in for Redis (BUSYKEY texts, REPLACE / IDLETIME / FREQ support, Bad data format); an RDB carries LRU or LFU hints, never both; TTL tolerance 3 s."),
 }
 
 NOT_YET = "check not built yet in this session (work in progress; see DESIGN.md section 7 for the order)"
